@@ -47,7 +47,7 @@ FINDING_LONG = "C46-overlong-credentials-left-pending"
 class Harness:
     def __init__(self, stage):
         from harness import c46_e2e
-        self.e2e = c46_e2e.E2E(stage, n_default=int(os.environ.get("C46_INSTANCES", "4")), ttls=(6, 6))
+        self.e2e = c46_e2e.E2E(stage, n_default=int(os.environ.get("C46_INSTANCES", "4")))
         self.crashes = 0
 
     def run(self, lines):
@@ -116,6 +116,8 @@ def parse(line):
             steps.append(("r", int(s[1:]), False))
         elif s[0] == "t":
             steps.append(("t", int(s[1:])))
+        elif s == "g":
+            steps.append(("g",))
         else:
             steps.append(("?", s))
     return toks[0], steps
@@ -130,6 +132,8 @@ def mk(cfg, steps):
             out.append("r%d" % s[1])
         elif s[0] == "t":
             out.append("t%d" % s[1])
+        elif s[0] == "g":
+            out.append("g")
     return " ".join(out)
 
 
@@ -279,6 +283,24 @@ def sc_ttl(rng):
     return mk("c6:0", steps + drain(n))
 
 
+def sc_gc(rng):
+    """authenticate_ttl 5 s, clean-up every second: records leave the cache (also while their lookup is in flight) and come back as new ones"""
+    u, v = rng.choice(USERS[:4]), rng.choice(USERS[4:6])
+    good, bad = basic(u, b"pw-" + u.lower()), basic(u, wrong_pw(rng, u))
+    vgood = basic(v, b"pw-" + v.lower())
+    k = rng.below(4)
+    if k == 0:     # verified, evicted, verified again from scratch
+        steps = [("a", 1, 1, good), ("r", 1, False), ("a", 2, 1, good), ("t", 8), ("g",), ("a", 3, 1, good), ("r", 2, False), ("a", 4, 2, good)]
+    elif k == 1:   # evicted while the lookup is in flight: the answer goes to the orphaned record, the other password lives in a new one
+        steps = [("a", 1, 1, good), ("t", 8), ("g",), ("a", 2, 2, bad), ("r", 1, False), ("a", 3, 3, bad), ("r", 2, False), ("a", 4, 1, good)]
+    elif k == 2:   # only the old user goes
+        steps = [("a", 1, 1, good), ("r", 1, False), ("t", 8), ("a", 2, 2, vgood), ("r", 2, False), ("g",), ("a", 3, 1, good), ("a", 4, 2, vgood)]
+    else:          # a queue on an evicted record is still released by its own lookup
+        steps = [("a", 1, 1, good), ("a", 2, 2, good), ("t", 8), ("g",), ("a", 3, 3, good), ("r", 2, False), ("r", 1, False), ("g",), ("a", 4, 1, good)]
+    n = sum(1 for s in steps if s[0] == "a")
+    return mk("c6:5", steps + drain(n))
+
+
 def fixed_cases():
     al_good, al_bad = basic(b"al", b"pw-al"), basic(b"al", b"BAD")
     bob_good = basic(b"bob", b"pw-bob")
@@ -301,11 +323,13 @@ def cases(rng, tier):
     for l in fixed_cases():
         yield l
     n = 260 if big else 42
-    fams = [sc_race, sc_race, sc_cache, sc_multi, sc_multi, sc_garbled]
+    fams = [sc_race, sc_cache, sc_multi, sc_garbled, sc_cache, sc_multi]
     for i in range(n):
         yield fams[i % len(fams)](rng)
     for i in range(12 if big else 4):
         yield sc_ttl(rng)
+    for i in range(12 if big else 4):
+        yield sc_gc(rng)
     if big:
         # exhaustive small scope: one user, three arrivals each good or bad, every interleaving position of the first answer, both answer orders
         g, b = basic(b"al", b"pw-al"), basic(b"al", b"BAD")
@@ -474,7 +498,9 @@ def tag(line, impl, model):
     kinds = []
     if race_region(line, impl):
         kinds.append("pw-change-in-flight")
-    if " t" in line:
+    if " g" in line:
+        kinds.append("gc")
+    elif " t" in line:
         kinds.append("ttl")
     if "q" in re.findall(r",(q)(?: |$)", impl):
         kinds.append("queued")
@@ -488,7 +514,7 @@ def shrink(line):
     cfg, steps = parse(line)
     # drop one step at a time (arrivals keep their tags; answers keep their lookup numbers only when no earlier arrival goes)
     for i in range(len(steps)):
-        if steps[i][0] in ("r", "t"):
+        if steps[i][0] in ("r", "t", "g"):
             yield mk(cfg, steps[:i] + steps[i + 1:])
     for i in range(len(steps) - 1, -1, -1):
         if steps[i][0] == "a":
